@@ -192,6 +192,63 @@ def run(ctx):
                 judge_after_crash(ctx, run, dict(meta, family="crash-restart", crash_after_step=at, store=scn["config"].get("store", "json")), "crash-%d" % at)
             finally:
                 S.close(run)
+    reread_family(ctx)
+
+
+def reread_family(ctx):
+    """Views are read, the world moves on, the views are read again: an execution is listed while RUNNING (a Wait), after it ended, and after its name was
+    started again with another outcome (the engine accepts that; whether it should is C10's listed finding) - through every instance and both front ends,
+    ListExecutions (with and without statusFilter) must tell what DescribeExecution tells at that moment."""
+    from lsfverif.sim.world import World
+    asl = {"StartAt": "W", "States": {"W": {"Type": "Wait", "Seconds": 2, "Next": "C"},
+                                      "C": {"Type": "Choice", "Choices": [{"Variable": "$.ok", "BooleanEquals": True, "Next": "Yes"}], "Default": "No"},
+                                      "Yes": {"Type": "Succeed"}, "No": {"Type": "Fail", "Error": "Not.Ok", "Cause": "c"}}}
+    k = 0
+    for cname, cfg in (("json-1", {}), ("redis-1", {"store": "redis"}), ("redis-2", {"store": "redis", "instances": ("i1", "i2")})):
+        for first_ok in (True, False):
+            k += 1
+            if not ctx.mine(k):
+                continue
+            with World(seed=ctx.seed, store=cfg.get("store", "json"), instances=tuple(cfg.get("instances", ("i1",)))) as w:
+                code, body = w.api("CreateStateMachine", {"name": "rr", "definition": json.dumps(asl), "roleArn": "arn:aws:iam::0123456789:role/r"})
+                sm = body["stateMachineArn"]
+
+                def read_all(when):
+                    for iid in w.engines:
+                        for front in ("asyncio", "blocking"):
+                            ctx.count("rest_views_compared"); ctx.count("reread_view_comparisons")
+                            c1, rec = w.api("DescribeExecution", {"executionArn": ex}, iid=iid, flavour=front)
+                            c2, lst = w.api("ListExecutions", {"stateMachineArn": sm}, iid=iid, flavour=front)
+                            if c1 != 200 or c2 != 200:
+                                ctx.violation("view-missing-for-a-started-execution", dict(when=when, iid=iid, front_end=front, codes=[c1, c2], config=cname), None)
+                                continue
+                            mine = [e for e in lst.get("executions", []) if e["executionArn"] == ex]
+                            want = {f: rec.get(f) for f in ("status", "startDate", "stopDate", "name", "stateMachineArn")}
+                            got = {f: mine[0].get(f) for f in want} if len(mine) == 1 else None
+                            if got != want:
+                                ctx.violation("ListExecutions-disagrees-with-DescribeExecution", dict(when=when, iid=iid, front_end=front, listed=mine, record=rec, config=cname,
+                                                                                                    family="reread"), None)
+                            for flt in ("RUNNING", "SUCCEEDED", "FAILED"):
+                                c3, l3 = w.api("ListExecutions", {"stateMachineArn": sm, "statusFilter": flt}, iid=iid, flavour=front)
+                                listed = c3 == 200 and any(e["executionArn"] == ex for e in l3.get("executions", []))
+                                if listed != (rec.get("status") == flt):
+                                    ctx.violation("ListExecutions-statusFilter-disagrees-with-DescribeExecution", dict(when=when, iid=iid, front_end=front, filter=flt, listed=listed,
+                                                                                                                     record=rec, config=cname, family="reread"), None)
+                ok = first_ok
+                for rnd in range(3):
+                    code, body = w.api("StartExecution", {"stateMachineArn": sm, "name": "same", "input": json.dumps({"ok": ok, "round": rnd})},
+                                       iid=list(w.engines)[rnd % len(w.engines)])
+                    if code != 200:
+                        ctx.count("reread_restart_refused")
+                        break
+                    ex = body["executionArn"]
+                    ctx.evaluation(); ctx.count("reread_rounds"); ctx.nontrivial([cname, first_ok, rnd])
+                    w.run(until=lambda world: any(not world.is_housekeeping(t) for t in world.all_timers()))
+                    read_all("round %d, waiting" % rnd)
+                    w.run()
+                    read_all("round %d, ended" % rnd)
+                    w.advance(1.5); w.run()
+                    ok = not ok
 
 
 def witnesses(ctx):
@@ -200,6 +257,10 @@ def witnesses(ctx):
 
 def replay(ctx, doc):
     w = doc["witness"]
+    if w.get("family") == "reread":
+        print(json.dumps(w, indent=1)[:3000])
+        reread_family(ctx)          # (deterministic: the whole family is run again)
+        return
     run = S.execute(w["scenario"], labels=w.get("schedule"), seed=w.get("seed", 0))
     for n in run.world.notifications:
         print(n["t"], n["subject"], json.dumps(n["body"]["detail"])[:300])
